@@ -13,8 +13,8 @@ CONFIG = {
                 "VDriver/Fuzz.lean"],
     "theorems": ["V.C18.version_table_total", "V.C18.version_table_keys", "V.C18.compact_no_panic", "V.C18.canonical_no_panic",
                  # every method of the PDU interface on events NewEventFromUntrustedJSON returned (Redact() included); Sign() on them
-                 # WITHOUT any hypothesis on the signatures member (fix 299b756); every method but Redact() / Sign() on events from
-                 # trusted JSON, RoomID() of a version-12 create event included (fix 41b161b)
+                 # WITHOUT any hypothesis on the signatures member (fix ac98af9); every method but Redact() / Sign() on events from
+                 # trusted JSON, RoomID() of a version-12 create event included (fix 72889ee)
                  "V.C18.no_panic_accessors", "V.C18.no_panic_sign", "V.C18.no_panic_accessors_trusted",
                  # the former kernel-checked counter-examples (defects D1, D3, D4), now kernel-checked to behave: Sign() on an event
                  # whose signatures member does not decode returns normally; the Room_id / room_id:null event is refused on
@@ -47,6 +47,6 @@ CONFIG = {
         "trusted-JSON constructors are fed arbitrary bytes for parsing and accessors only (Redact() / Sign() on trusted JSON and EventID() / RoomID() after NewEventFromTrustedJSONWithEventID with an ID of the caller's choosing are the caller's contract)",
         "the hash returns 32 bytes (SHA-256)",
         "state resolution v2 / v2.1: at least two state sets (caller); nothing is assumed about the auth graph (cyclic auth_events, possible in room versions 1-2 whose event IDs are sender-chosen, are covered since fix c5e96b7). The v2.1 conflicted-subgraph walk is not modelled as a loop (StateRes.conflictedSubgraph is a closure): it would re-walk a cyclic auth graph forever, but v2.1 is selected only by room versions 12 / org.matrix.hydra.11, whose event IDs are hashes of the events (a cycle needs a SHA-256 fixed point)",
-        "Sign() has its own theorem (no_panic_sign, no hypothesis on the signatures member since fix 299b756); the accessor sweep after Redact(), after Sign() and on the event SetUnsigned() returns is exercised by fuzz.event on every accepted event (events with a case variant of a struct field name or a repeated member name - D3, the content-forgery shapes - are refused on receipt since fixes 15162d8 / 37131f6)",
+        "Sign() has its own theorem (no_panic_sign, no hypothesis on the signatures member since fix ac98af9); the accessor sweep after Redact(), after Sign() and on the event SetUnsigned() returns is exercised by fuzz.event on every accepted event (events with a case variant of a struct field name or a repeated member name - D3, the content-forgery shapes - are refused on receipt since fixes 77ea759 / 4be2601)",
     ],
 }
